@@ -9,7 +9,8 @@ PROP = "C01"
 LEVEL = "exploration"
 RULE = ("cells = target {interior correlated Gaussian, bimodal 0.3/0.7, exponential at a hard edge, half-Gaussian at a hard edge, von Mises on a periodic coordinate, half-Gaussian on a reflective "
         "coordinate} x kernel x resampler x clustering x fault arm {fault-free, crash->resume, pooled evaluation}; each cell = R independent seeded world runs at N and 4N particles; estimands per run "
-        "(standardised by the true posterior scale): means, variances, marginal CDF at 5 points, mode mass; persistent-bias rule: |b_4N|-delta > 6 se_4N AND |b_4N|-0.6|b_N| > 6 se_comb; "
+        "(standardised by the true posterior scale): means, variances, marginal CDF at 5 points, mode mass; persistent-bias rule: |b_4N|-delta > 6 se_4N AND |b_4N|-0.6|b_N| > 3 se_comb; "
+        "plus a stage ensemble of the resampling stage (real Resampler.run on constructed weighted pools: share of each weight bin vs its weight, |z|<=6); "
         "evaluations = simulated runs; distinct = cells x particle counts; non-trivial = the run completed and produced estimates")
 ASSUMPTIONS = ["statistical oracle (weak fit for this technique): decides persistent bias above the allowances delta = 0.03 sd (means), 3% (variances), 0.01 (CDF/mass), at z=6",
                "truth from closed forms (erf / Bessel) for product-form targets", "posterior() is called with its defaults (trimming on)"]
@@ -56,10 +57,68 @@ def cases(seed, tier):
     out = []
     for cell in cell_list(tier):
         out += E.cell_cases(cell, sizes, R, sch, "c01")
+    for k in range(12 if tier == "quick" else 200):
+        rr = random.Random(sch.np_seed(f"c01.rs{k}"))
+        out.append(dict(kind="resample_stage", seed=sch.np_seed(f"c01.rss{k}") % (2**31), resample=("mult", "syst")[k % 2], M=rr.choice([100, 400, 1000]), n=rr.choice([16, 64, 128]), K=400,
+                        width=rr.choice([0.05, 0.15, 0.5])))
     return out
 
 
+def run_resample_stage(case):
+    """Stage ensemble for the resampling stage: the real Resampler.run is called many times on a constructed weighted pool
+    under the RNG seam; the expected number of copies of pool particle i is n*w_i (the stage must hand the mutation stage a
+    sample of the weighted pool).  Ten weight-ordered bins, z-test with the multinomial variance (an upper bound for
+    systematic resampling, so the test is conservative)."""
+    import math
+
+    import numpy as np
+
+    from .. import seams
+    from tempest.state_manager import StateManager
+    from tempest.steps.resample import Resampler
+
+    r = np.random.RandomState(case["seed"] % (2**31))
+    M, n, K, d = case["M"], case["n"], case["K"], 2
+    st = StateManager(d)
+    u = r.random_sample((M, d))
+    logl = -0.5 * ((u[:, 0] - 0.3) / case["width"]) ** 2
+    st.update_current(dict(u=u, x=u.copy(), logl=logl, beta=0.0, logz=0.0, iter=1, calls=M, ess=float(M), steps=1, acceptance=1.0, efficiency=1.0))
+    st.commit_current_to_history()
+    st.set_current("beta", 0.5)
+    w = np.exp(0.5 * (logl - logl.max()))
+    w /= w.sum()
+    rs = Resampler(state=st, n_particles=n, resample=case["resample"], clusterer=None, clustering=False, have_blobs=False)
+    counts = np.zeros(M)
+    run = seams.RngRun(case["seed"] % (2**31) + 1, record=0)
+    with seams.active(run):
+        for _ in range(K):
+            rs.run(w.copy())
+            cur = st._current["u"]
+            # map resampled rows back to pool indices (rows are exact copies)
+            idx = np.searchsorted(np.sort(u[:, 0]), cur[:, 0])
+            order = np.argsort(u[:, 0])
+            np.add.at(counts, order[np.clip(idx, 0, M - 1)], 1)
+    tot = n * K
+    order = np.argsort(w)
+    bins = np.array_split(order, 10)
+    zmax, worst = 0.0, None
+    for b, ix in enumerate(bins):
+        p = float(w[ix].sum())
+        obs = float(counts[ix].sum())
+        z = (obs - tot * p) / math.sqrt(tot * p * (1 - p) + 1e-300)
+        if abs(z) > abs(zmax):
+            zmax, worst = z, (b, round(p, 4), round(obs / tot, 4))
+    viol = []
+    if abs(zmax) > 6.0:
+        viol.append(dict(property=PROP, oracle="resample_stage.biased", detail=f"resampler '{case['resample']}': after {K} calls on a pool of {M} weighted particles the share of weight-bin {worst[0]} in the resampled sets is {worst[2]} "
+                         f"but the bin carries weight {worst[1]} (z={zmax:+.1f}): the resampling stage does not reproduce the weighted pool", keys=dict(resample=case["resample"])))
+    return dict(violations=viol, stats=dict(resample_stage_calls=K), probes={}, digest=json.dumps([round(zmax, 6)]), distinct_key=f"resample_stage/{case['resample']}/M{M}/n{n}/w{case['width']}", nontrivial=True,
+                sample=dict(kind="resample stage ensemble", resample=case["resample"], M=M, n=n, calls=K, max_abs_z=round(abs(zmax), 2)))
+
+
 def run_case(case):
+    if case.get("kind") == "resample_stage":
+        return run_resample_stage(case)
     if case.get("kind") == "cell":
         import sys
 
